@@ -1,5 +1,66 @@
 from specs import R
 
+# Switch for the "source lies inside the message" oracle family (mode alias, violation keys
+# C17/alias/...).  It is a separate run line with its own floors; set to False to take it out
+# without touching anything else.
+ALIAS = True
+
+_alias_runs = [R("c17_msg", "asan", 2, 0, "alias", 600)] if ALIAS else []
+_alias_floor = {
+    "cases_alias": 1500,
+    "@class:alias/*": 100,
+    "@class:alias/append-own-body/regrow-*": 6,
+    "@class:alias/insert-own-body/split/*": 3,
+    "@class:alias/insert-own-body/regrow-*": 6,
+    "@class:alias/insert-own-body/headroom/*": 4,
+    "@class:alias/header_insert-own-header/*": 2,
+    "@class:alias/pull_up*": 6,
+} if ALIAS else {}
+
+
+def _floor(cases_exh, cases_rand, steps_rand, k):
+    """k scales the floors of the random part (quick: 1)."""
+    f = {
+        # every mode on its own: none of them can stand in for a dead one
+        "cases_exh": cases_exh, "cases_rand": cases_rand, "cases_huge": 15900,
+        "steps_exh": 2 * cases_exh, "steps_rand": steps_rand,
+        "huge_requests": 13200, "huge_mid_requests": 2700,
+        "cases": cases_exh + cases_rand + 15900,
+        # classes (operation, length class, header fill, rc); measured quick: 2370 in total,
+        # dup 33, *_uN rv0 200, rv3 285, hdrfull 113, insert rv0 33, realloc 33, reserve 32,
+        # huge 1260 (540 of them at 2^31..2^33)
+        "@classes": 2000,
+        "@class:dup/*": 25,
+        "@class:*_uN/*/rv0": 150,
+        "@class:*/rv3": 200,
+        "@class:header_*/*/hdrfull/*": 80,
+        "@class:insert/*/rv0": 25,
+        "@class:realloc/*": 25,
+        "@class:reserve/*": 25,
+        "@class:huge/*": 1200,
+        "@class:huge/*/2^3[123]*": 500,
+        # allocator paths really taken (derived from body pointer, capacity and the heap block
+        # that holds the body); floors are about half of what a quick run measures
+        "path_append_inplace": 40000 * k, "path_append_regrow-off0": 5000 * k, "path_append_regrow-offnz": 12000 * k,
+        "path_insert_headroom": 35000 * k, "path_insert_split": 6000 * k,
+        "path_insert_regrow-off0": 5000 * k, "path_insert_regrow-offnz": 6000 * k,
+        "path_realloc_regrow-off0": 200 * k, "path_realloc_regrow-offnz": 3000 * k,
+        "path_reserve_regrow-off0": 700 * k, "path_reserve_regrow-offnz": 4000 * k,
+        "path_trim_toempty": 3000 * k, "path_trim_advance": 25000 * k,
+        "path_alloc_nohead": 8000 * k, "path_alloc_head": 25000 * k,
+        "path_regrow_kept_offset": 20000 * k,
+        "@class:path/*": 200,
+        "@class:path/*/empty": 50,
+        "@class:path/alloc/*": 10,
+        "@class:path/insert/split/*": 10,
+        "@class:path/append/regrow-offnz/*": 15,
+        "@class:path/insert/regrow-offnz/*": 10,
+        "max_offset": 8192, "max_body_len": 20000,
+    }
+    f.update(_alias_floor)
+    return f
+
+
 SPEC = dict(
     level="exploration",
     level_text="Model-based runtime monitor: the real nng_msg implementation is driven through its public API under ASan+UBSan with a reference model compared after every step, plus the guarded storage-invariant hook in core/message.c; exhaustive for short sequences over a reduced alphabet, sampled beyond. Held-on-what-was-run, not a proof.",
@@ -10,15 +71,19 @@ SPEC = dict(
          "of length<=3 (quick) / <=4 (thorough) over a 20-operation reduced alphabet x 3 initial "
          "sizes, random tier draws boundary-biased sizes; a class is (operation, body length "
          "class, header fill class, return code) and is counted only when the step was executed "
-         "and compared",
-    assumptions=["ASan/UBSan see only red-zone overflows", "new bytes exposed by realloc/alloc are unspecified and defined by the harness before comparison"],
+         "and compared; path/... classes name the allocator branch a step really took (in place, "
+         "regrow at offset 0 / non-zero, headroom, slack split, trim to empty) as derived from "
+         "body pointer, capacity and the heap block holding the body; alias/... classes are edits "
+         "whose source lies inside the message itself",
+    assumptions=["ASan/UBSan see only red-zone overflows", "new bytes exposed by realloc/alloc are unspecified and defined by the harness before comparison",
+                 "requests above 64 MiB are refused by the allocator (ASan max_allocation_size_mb=64 set by the harness), above 2^40 by the accounting allocator"],
     quick=dict(runs=[R("c17_msg", "asan", 8, 0, "exh3", 300),
                      R("c17_msg", "asan", 8, 4000, "rand", 300),
-                     R("c17_msg", "asan", 4, 0, "huge", 300)],
-               floor={"cases": 20000, "@classes": 150, "huge_requests": 10000},
+                     R("c17_msg", "asan", 4, 0, "huge", 300)] + _alias_runs,
+               floor=_floor(25260, 32000, 900000, 1),
                exhaustive_note="mode exh3 enumerates the reduced alphabet completely; the random part is sampled"),
     thorough=dict(runs=[R("c17_msg", "asan", 16, 0, "exh4", 1800),
                         R("c17_msg", "asan", 16, 60000, "rand", 1800),
-                        R("c17_msg", "asan", 4, 0, "huge", 300)],
-                  floor={"cases": 400000, "@classes": 150, "huge_requests": 10000}),
+                        R("c17_msg", "asan", 4, 0, "huge", 300)] + _alias_runs,
+                  floor=_floor(505260, 960000, 27000000, 10)),
 )
